@@ -146,6 +146,10 @@ def run_case(case):
                 r2 = [dict(r_, tags=['t', {'k': [0, 1]}, 'x']) for r_ in copy.deepcopy(r2)]
             return f2, r2
         pre = []
+        if 'id' in kept and rng.random() < 0.3:
+            # the input declares a (valid) primary key on a kept field
+            pre = [d.set_primary_key(['id'])]
+            cov['config']['unpivot/primary_key_on_kept_field'] = 1
     else:
         fields = FIELDS
         sfields = gen.schema_fields(fields)
@@ -234,6 +238,14 @@ def run_case(case):
             if [f.get('type') for f in tail] != ['string', 'any', 'string']:
                 add('schema', 'unpivot: key/value field descriptors %r' % tail)
         counters['rows_compared'] += len(R)
+        gpk = gdesc['schema'].get('primaryKey') or []
+        gpk = [gpk] if isinstance(gpk, str) else list(gpk)
+        if fam == 'unpivot' and gpk:
+            if any(k not in gnames for k in gpk):
+                add('primary_key', 'unpivot: emitted primaryKey %r names undeclared fields %r' % (gpk, gnames))
+            elif len({tuple(repr(r_.get(k)) for k in gpk) for r_ in grows}) != len(grows):
+                add('primary_key', 'unpivot %r: emitted primaryKey %r is not unique over the %d emitted rows of %s '
+                    '(it was unique over the input rows)' % (cfg, gpk, len(grows), rn))
         diffs = lab.rows_diff(R, grows)
         if diffs:
             add('rows', '%s %r: resource %s (%s): %s' % (fam, cfg, rn,
